@@ -11,7 +11,7 @@ VARIABLE hist
 
 AttInFlight == \E a \in Inst : att[a].st \in {"begun", "locked"}
 InternalStep == \E i \in Inst :
-    \/ \E w \in Wk : WRecv(i, w) \/ WDone(i, w, TRUE) \/ WDone(i, w, FALSE) \/ WDec(i, w) \/ WRel(i, w)
+    \/ \E w \in Wk : WRecv(i, w) \/ WDone(i, w, TRUE) \/ WDone(i, w, FALSE) \/ WDoneRotation(i, w) \/ WDec(i, w) \/ WRel(i, w)
     \/ DStop(i) \/ DLoopCheck(i) \/ DSendClose(i) \/ DDrain2(i) \/ DClear(i) \/ DRelSup(i) \/ DRelRx(i) \/ DRelLock(i)
     \/ KDrop(i) \/ KRelSup(i) \/ KRelLock(i)
 Quiet == ~AttInFlight /\ ~ENABLED InternalStep
